@@ -94,12 +94,12 @@ class TunnelEncaps(Attribute):
                 ipv4_node = value['node']
                 if "SID" not in value.keys():
                     seg_hex += struct.pack('!B', bgp_cons.BGP_SRTE_SEGMENT_SUBTLV_IPV4_SID) + struct.pack('!B', 6) + b'\x00\x00' +\
-                        netaddr.IPAddress(ipv4_node).packed
+                        netaddr.IPAddress(ipv4_node, 4).packed
                 else:
                     opt_sid = value['SID']
                     sum_value = cls.construct_optional_label_sid(opt_sid)
                     seg_hex += struct.pack('!B', bgp_cons.BGP_SRTE_SEGMENT_SUBTLV_IPV4_SID) + struct.pack('!B', 10) + b'\x00\x00' +\
-                        netaddr.IPAddress(ipv4_node).packed + struct.pack('!I', sum_value)
+                        netaddr.IPAddress(ipv4_node, 4).packed + struct.pack('!I', sum_value)
             # 5
             elif seg_type == bgp_cons.BGP_SRTE_SEGMENT_SUBTLV_IPV4_INDEX_SID:
                 value = seg[list(seg)[0]]
@@ -108,13 +108,13 @@ class TunnelEncaps(Attribute):
                 if "SID" not in value.keys():
                     seg_hex += struct.pack('!B', bgp_cons.BGP_SRTE_SEGMENT_SUBTLV_IPV4_INDEX_SID) +\
                         struct.pack('!B', 10) + b'\x00\x00' + struct.pack('!I', local_int) +\
-                        netaddr.IPAddress(ipv4_node).packed
+                        netaddr.IPAddress(ipv4_node, 4).packed
                 else:
                     opt_sid = value['SID']
                     sum_value = cls.construct_optional_label_sid(opt_sid)
                     seg_hex += struct.pack('!B', bgp_cons.BGP_SRTE_SEGMENT_SUBTLV_IPV4_INDEX_SID) +\
                         struct.pack('!B', 14) + b'\x00\x00' + struct.pack('!I', local_int) +\
-                        netaddr.IPAddress(ipv4_node).packed + struct.pack('!I', sum_value)
+                        netaddr.IPAddress(ipv4_node, 4).packed + struct.pack('!I', sum_value)
             # 6
             elif seg_type == bgp_cons.BGP_SRTE_SEGMENT_SUBTLV_IPV4_ADDR_SID:
                 value = seg[list(seg)[0]]
@@ -122,12 +122,12 @@ class TunnelEncaps(Attribute):
                 remote_ipv4 = value['remote']
                 if "SID" not in value.keys():
                     seg_hex += struct.pack('!B', bgp_cons.BGP_SRTE_SEGMENT_SUBTLV_IPV4_ADDR_SID) + struct.pack('!B', 10) +\
-                        b'\x00\x00' + netaddr.IPAddress(local_ipv4).packed + netaddr.IPAddress(remote_ipv4).packed
+                        b'\x00\x00' + netaddr.IPAddress(local_ipv4, 4).packed + netaddr.IPAddress(remote_ipv4, 4).packed
                 else:
                     opt_sid = value['SID']
                     sum_value = cls.construct_optional_label_sid(opt_sid)
                     seg_hex += struct.pack('!B', bgp_cons.BGP_SRTE_SEGMENT_SUBTLV_IPV4_ADDR_SID) + struct.pack('!B', 14) +\
-                        b'\x00\x00' + netaddr.IPAddress(local_ipv4).packed + netaddr.IPAddress(remote_ipv4).packed +\
+                        b'\x00\x00' + netaddr.IPAddress(local_ipv4, 4).packed + netaddr.IPAddress(remote_ipv4, 4).packed +\
                         struct.pack('!I', sum_value)
         return weight_hex, seg_hex
 
@@ -257,7 +257,8 @@ class TunnelEncaps(Attribute):
                                 data={}
                             )
                         policy_value_hex += struct.pack('!B', bgp_cons.BGPSUB_TLV_REMOTEENDPOINT_NEW) + struct.pack('!B', length) \
-                            + struct.pack('!I', asn) + struct.pack('!H', af_value) + netaddr.IPAddress(address).packed
+                            + struct.pack('!I', asn) + struct.pack('!H', af_value) + \
+                            netaddr.IPAddress(address, 4 if af == 'ipv4' else 6).packed
 
                 else:
                     raise excep.ConstructAttributeFailed(
